@@ -44,6 +44,7 @@ Section SItems.
   Fixpoint s_item (L : vars) (it : item) {struct it} : res :=
     match it with
     | IText s => Ok s
+    | IStmt s => Ok s
     | IVar v => Ok (lookup_var v (L ++ ctx))
     | IBlock b =>
         match assoc b (t_blocks t) with
